@@ -163,6 +163,20 @@ class VOpaque(Value):
 
 
 @dataclass
+class VObj(Value):
+    """Instance of a plain repository class (the local linear operators of the AMEn solvers)."""
+    cls: str               # dotted class name
+    attrs: dict = field(default_factory=dict)
+
+
+@dataclass
+class VContraction(Value):
+    """opt_einsum.contract_expression(spec, *shapes): a callable that contracts its operands by `spec`."""
+    spec: str
+    nshapes: int = 0
+
+
+@dataclass
 class VType(Value):
     names: tuple           # class names for isinstance
 
